@@ -162,6 +162,7 @@ type HarnessResult struct {
 	Wall        time.Duration
 	Merged      int
 	Truncated   bool
+	Witnesses   []Violation
 	Buckets     [5]int
 	BucketT     [5]time.Duration
 }
@@ -214,6 +215,7 @@ func exploreHarness(ld *Loaded, spec HarnessSpec, tier string, workers int, know
 	work := [][]Decision{nil}
 	active := 0
 	stop := false
+	nwit := 0
 
 	worker := func() {
 		sol, err := StartSolver(solverKind, timeout)
@@ -252,6 +254,15 @@ func exploreHarness(ld *Loaded, spec HarnessSpec, tier string, workers int, know
 			m := NewMachine(ld.prog, sh, sol, cfg, spec.Fn)
 			m.tier = tier
 			m.knownKeys = known
+			m.wantWitness = func() bool {
+				mu.Lock()
+				defer mu.Unlock()
+				if nwit >= 2 {
+					return false
+				}
+				nwit++
+				return true
+			}
 			res := m.RunPath(fn, prefix, inits)
 			npaths++
 			if npaths%200 == 0 || sol.dead {
@@ -294,6 +305,9 @@ func exploreHarness(ld *Loaded, spec HarnessSpec, tier string, workers int, know
 				hr.Samples = append(hr.Samples, res.Samples...)
 			}
 			hr.Violations = append(hr.Violations, res.Violations...)
+			if res.Witness != nil {
+				hr.Witnesses = append(hr.Witnesses, *res.Witness)
+			}
 			for _, s := range res.Incon {
 				if len(hr.Incon) < 50 {
 					hr.Incon = append(hr.Incon, s)
